@@ -62,6 +62,8 @@ var specPool = []string{
 	"grammar c7;\nP = \"a|b\"\nstart = P;\n",
 	"grammar e1;\nHI = /[\\xD800-\\xD803]+/\nstart = HI;\n",
 	"grammar e2;\nLO = /[\\xDC00-\\xDC03]+/\nstart = LO;\n",
+	"grammar e3;\nOHM = /\\x2126/\nstart = OHM;\n",
+	"grammar e4;\nstart = \"&\" \"A\" \"0\";\n",
 	// conflict reports name synthesised rules: they must not depend on what was processed before
 	"grammar d1;\nNUM = /[0-9]+/\nstart = expr;\nexpr = expr ( \"+\" | \"-\" ) expr | NUM;\n",
 	"grammar d2;\nstart = s;\ns = ( \"i\" s | \"i\" s \"e\" s ) | \"x\" { \"y\" \"z\" };\n",
@@ -76,13 +78,15 @@ var patternPool = []string{
 	"a", "ab|c", "[a-f]+", "[^a-f]", "[0-9][0-9]*", `\d+(\.\d+)?`, "[[:alpha:]_][[:alnum:]_]*", "(a|b)*abb", "a{2,4}", "(ab){2}c", "x?y*z+", ".", `\w+`, `[\x41-\x5A\x00E9]`,
 	"(", "a{3,1}", "[z-a]", "", `\`, "a**", "[u-z]+", "[a-cx-z]", `"([^"\\]|\\.)*"`, "(a*b){2}", "[^0-9]+",
 	"[z-a", "(a{3,1}", "x{2,1})", "a|b", "x?", "a*b",
+	// characters that agree in their low byte
+	`\x2126`, "&", `\x0141`, "A", `\x2030+`, "0+", `\x017E|x`, "~|x",
 	// ranges whose end points print alike (surrogate code points, U+FFFD)
 	`[\xD800-\xD803]+`, `[\xDC00-\xDC03]+`, `[\xD801-\xD802]`, `[\xFFFD-\xFFFE]x`, `[\xDFFE-\xDFFF]`,
 }
 
 // probes are inputs on which every automaton of a signature is run (a printed transition table shows surrogate
 // code points and U+FFFD alike).
-var probes = [][]rune{{'a'}, {'b'}, {'.'}, {'a', 'b'}, {'a', '*', 'b'}, {'x', 'y'}, {'9'}, {'a', 'a', 'b'}, {0xE9}, {0xD800}, {0xDBFF}, {0xDC00}, {0xDFFF}, {0xE000}, {0xFFFD}, {0xFFFE}, {0xD800, 0xD801}, {0xDC00, 0xDFFF}, {0xFFFD, 'x'}, {'i', 'f'}, {'1', '.', '5'}, {'"', 'a', '"'}}
+var probes = [][]rune{{'a'}, {'b'}, {'.'}, {'a', 'b'}, {'a', '*', 'b'}, {'x', 'y'}, {'9'}, {'a', 'a', 'b'}, {0xE9}, {0xD800}, {0xDBFF}, {0xDC00}, {0xDFFF}, {0xE000}, {0xFFFD}, {0xFFFE}, {0xD800, 0xD801}, {0xDC00, 0xDFFF}, {0xFFFD, 'x'}, {'i', 'f'}, {'1', '.', '5'}, {'"', 'a', '"'}, {'&'}, {0x2126}, {'A'}, {0x141}, {'0'}, {0x2030}, {'~'}, {0x17E}}
 
 func probeAcceptance(d *auto.DFA) string {
 	var b strings.Builder
